@@ -28,6 +28,8 @@ type Result struct {
 	Points  int // inserted hook calls
 	// Uncontrolled counts go statements and channel operations: concurrency the cooperative scheduler does not control
 	Uncontrolled int
+	// Rewritten counts go statements and channel operations handed over to the scheduler
+	Rewritten int
 }
 
 // Package instruments the package in dir (import path pkgPath). resolve maps a
@@ -119,6 +121,8 @@ func Package(dir, pkgPath string, resolve func(string) string) (*Result, error) 
 		res.Files[paths[i]] = out
 	}
 	res.Points = in.points
+	res.Uncontrolled = -in.allowed
+	res.Rewritten = in.rewritten
 	for _, f := range files {
 		ast.Inspect(f, func(n ast.Node) bool {
 			switch x := n.(type) {
@@ -150,6 +154,11 @@ type instrumenter struct {
 	used   map[*ast.File]bool
 	cur    *ast.File
 	points int
+	// rewritten counts go statements / channel operations handed to the scheduler; tmp numbers temporaries
+	rewritten  int
+	tmp        int
+	allowed    int // constructs deliberately left in the tree (select with default and its clauses)
+	seenSelect map[*ast.SelectStmt]bool
 }
 
 type access struct {
@@ -193,10 +202,122 @@ func (in *instrumenter) stmts(list []ast.Stmt) []ast.Stmt {
 	for _, s := range list {
 		hooks := in.hooksFor(in.headerAccesses(s))
 		out = append(out, hooks...)
+		s = in.concurrency(s)
 		out = append(out, s)
 		in.nested(s)
 	}
 	return out
+}
+
+func rtCall(name string, args ...ast.Expr) *ast.CallExpr {
+	return &ast.CallExpr{Fun: &ast.SelectorExpr{X: ast.NewIdent("verifrt"), Sel: ast.NewIdent(name)}, Args: args}
+}
+
+// isRecv reports whether e is a plain channel receive <-ch.
+func isRecv(e ast.Expr) (ast.Expr, bool) {
+	for {
+		p, ok := e.(*ast.ParenExpr)
+		if !ok {
+			break
+		}
+		e = p.X
+	}
+	if u, ok := e.(*ast.UnaryExpr); ok && u.Op == token.ARROW {
+		return u.X, true
+	}
+	return nil, false
+}
+
+// concurrency rewrites the statement forms through which the code under test creates threads and
+// communicates, so that the scheduler owns them: go statements (arguments are evaluated at the statement,
+// the call runs as a new controlled thread), channel sends, receives in statement position, close, and
+// select with a default branch (a scheduling point before it). Forms it cannot own are counted.
+func (in *instrumenter) concurrency(s ast.Stmt) ast.Stmt {
+	switch s := s.(type) {
+	case *ast.LabeledStmt:
+		s.Stmt = in.concurrency(s.Stmt)
+		return s
+	case *ast.GoStmt:
+		in.used[in.cur] = true
+		in.rewritten++
+		var pre []ast.Stmt
+		call := &ast.CallExpr{Fun: s.Call.Fun, Ellipsis: s.Call.Ellipsis}
+		if _, lit := s.Call.Fun.(*ast.FuncLit); !lit {
+			in.tmp++
+			name := ast.NewIdent(fmt.Sprintf("verifF%d", in.tmp))
+			pre = append(pre, &ast.AssignStmt{Lhs: []ast.Expr{name}, Tok: token.DEFINE, Rhs: []ast.Expr{s.Call.Fun}})
+			call.Fun = name
+		}
+		for _, a := range s.Call.Args {
+			in.tmp++
+			name := ast.NewIdent(fmt.Sprintf("verifA%d", in.tmp))
+			pre = append(pre, &ast.AssignStmt{Lhs: []ast.Expr{name}, Tok: token.DEFINE, Rhs: []ast.Expr{a}})
+			call.Args = append(call.Args, name)
+		}
+		body := &ast.FuncLit{Type: &ast.FuncType{Params: &ast.FieldList{}}, Body: &ast.BlockStmt{List: []ast.Stmt{&ast.ExprStmt{X: call}}}}
+		return &ast.BlockStmt{List: append(pre, &ast.ExprStmt{X: rtCall("Go", body)})}
+	case *ast.SendStmt:
+		in.used[in.cur] = true
+		in.rewritten++
+		return &ast.ExprStmt{X: rtCall("Send", s.Chan, s.Value)}
+	case *ast.ExprStmt:
+		if ch, ok := isRecv(s.X); ok {
+			in.used[in.cur] = true
+			in.rewritten++
+			return &ast.ExprStmt{X: rtCall("Recv1", ch)}
+		}
+		if c, ok := s.X.(*ast.CallExpr); ok {
+			if id, ok := c.Fun.(*ast.Ident); ok && id.Name == "close" && len(c.Args) == 1 {
+				if _, isBuiltin := in.info.Uses[id].(*types.Builtin); isBuiltin {
+					in.used[in.cur] = true
+					in.rewritten++
+					return &ast.ExprStmt{X: rtCall("Close", c.Args[0])}
+				}
+			}
+		}
+	case *ast.AssignStmt:
+		if len(s.Rhs) == 1 {
+			if ch, ok := isRecv(s.Rhs[0]); ok {
+				in.used[in.cur] = true
+				in.rewritten++
+				name := "Recv1"
+				if len(s.Lhs) == 2 {
+					name = "Recv2"
+				}
+				s.Rhs = []ast.Expr{rtCall(name, ch)}
+				return s
+			}
+		}
+	case *ast.SelectStmt:
+		hasDefault := false
+		for _, c := range s.Body.List {
+			if cc, ok := c.(*ast.CommClause); ok && cc.Comm == nil {
+				hasDefault = true
+			}
+		}
+		if hasDefault && !in.seenSelect[s] {
+			// never blocks: one scheduling point before it
+			if in.seenSelect == nil {
+				in.seenSelect = map[*ast.SelectStmt]bool{}
+			}
+			in.seenSelect[s] = true
+			in.used[in.cur] = true
+			in.allowed += 1 + commOps(s)
+			return &ast.BlockStmt{List: []ast.Stmt{&ast.ExprStmt{X: rtCall("SyncPoint", &ast.BasicLit{Kind: token.STRING, Value: `"chan:select"`}, &ast.BasicLit{Kind: token.STRING, Value: `"chan"`}, ast.NewIdent("true"))}, s}}
+		}
+	}
+	return s
+}
+
+// commOps counts the channel operations in the communication clauses of a select statement.
+func commOps(s *ast.SelectStmt) int {
+	n := 0
+	for _, c := range s.Body.List {
+		if cc, ok := c.(*ast.CommClause); ok && cc.Comm != nil {
+			n++
+		}
+	}
+	return n
 }
 
 // nested instruments blocks inside a statement.
